@@ -410,6 +410,13 @@ class MNTM(ntm.NTM):
                                 i += 1
                             elif direction == "L":
                                 i -= 1
+                                # Moving left from the leftmost cell of a
+                                # virtual tape: extend that tape with a blank
+                                if i == 0 or new_tape[i - 1] == tape_separator_symbol:
+                                    new_tape = (
+                                        new_tape[:i] + self.blank_symbol + new_tape[i:]
+                                    )
+                                    i += 1
                             # else direction == 'N', i stays the same
 
                             # Handle edge cases with tape separator
